@@ -16,6 +16,7 @@ ALSO = {"revert-F1": ["C10", "C08", "C09"], "revert-F2": ["C09"], "revert-F3": [
         "mut-C01-5": ["C01", "C08"], "mut-C08-5": ["C08", "C01"], "mut-C07-5": ["C07", "C03", "C11", "C16"], "mut-C03-5": ["C03", "C16"], "mut-C10-5": ["C10", "C11", "C03", "C16"],
         "mut-C15-5": ["C15", "C10"], "mut-C16-5": ["C16", "C03"], "mut-C19-5": ["C19", "C01"], "mut-C14-5": ["C14", "C06"], "mut-C06-5": ["C06", "C03"], "mut-C13-5": ["C13", "C06"],
         "mut-C17-5": ["C17", "C05"], "mut-C09-5": ["C09", "C10"], "mut-C04-5": ["C04", "C09"], "mut-C11-5": ["C11", "C03"], "mut-C02-4": ["C02", "C01"],
+        "mut-C01-6": ["C01", "C09"], "mut-C04-6": ["C04", "C10"], "mut-C07-6": ["C07", "C12"],
         "mut-C08-2": ["C08", "C05"], "mut-C19-2": ["C19", "C01"], "mut-C19-3": ["C19", "C02"], "mut-C05-3": ["C05", "C06"]}
 for n in names:
     d = os.path.join(ROOT, "seeded", n)
